@@ -15,6 +15,8 @@ pub enum Sc {
     Half,
     /// uniform field element from seed
     R(u64),
+    /// literal field element: hex of the canonical little-endian bytes
+    Lit(String),
     /// k-th phase-2 challenge squeezed so far (execution order)
     Ch(usize),
     Mul(Box<Sc>, Box<Sc>),
@@ -41,6 +43,7 @@ pub fn resolve<F: PrimeField>(s: &Sc, chals: &[F]) -> F {
             let mut r = ChaChaRng::seed_from_u64(*seed ^ 0x5c5c_5c5c_0000_0001);
             F::rand(&mut r)
         }
+        Sc::Lit(h) => F::from_le_bytes_mod_order(&unhex(h)),
         Sc::Ch(k) => chals.get(*k).copied().unwrap_or_else(|| from_i64(7 + *k as i64)),
         Sc::Mul(a, b) => resolve::<F>(a, chals) * resolve::<F>(b, chals),
         Sc::Add(a, b) => resolve::<F>(a, chals) + resolve::<F>(b, chals),
@@ -53,6 +56,14 @@ pub fn uses_challenge(s: &Sc) -> bool {
         Sc::Mul(a, b) | Sc::Add(a, b) => uses_challenge(a) || uses_challenge(b),
         _ => false,
     }
+}
+
+/// `Sc::Lit` of a field element.
+pub fn lit<F: PrimeField>(f: &F) -> Sc {
+    use ark_serialize::CanonicalSerialize;
+    let mut b = vec![];
+    f.serialize_compressed(&mut b).unwrap();
+    Sc::Lit(hex(&b))
 }
 
 /// Hex of the canonical little-endian encoding, for evidence files.
